@@ -229,6 +229,41 @@ def r20_6(ctx):
            'state.value = State.SHUTDOWN on every normal path')
 
 
+def r20_12(ctx):
+    ctx.rule('R20.12', 'what a process remembers about a manager address -- the per-thread connection and the ids it '
+                       'owns -- is forgotten in a forked child: both stores are of a kind that clears itself after a '
+                       'fork (a child that found its parent\'s connection would share one socket and one server thread '
+                       'with it)', floor=2)
+    m = ctx.model
+    fi = m.func('managers:BaseProxy.__init__')
+    stores = [(dn, v) for (dn, t, v) in q.assigns(fi, lambda t: t.startswith('BaseProxy._address_to_local['))]
+    q.need(stores, 'BaseProxy.__init__ does not fill _address_to_local')
+    for (dn, v) in stores:
+        val = v
+        if isinstance(v, ast.Name):
+            defs = [x for (d2, t2, x) in q.assigns(fi, v.id) if isinstance(x, ast.Tuple)]
+            val = defs[0] if defs else v
+        elts = val.elts if isinstance(val, ast.Tuple) else []
+        q.need(len(elts) == 2, 'BaseProxy.__init__: the per-address entry is not a (connections, ids) pair')
+        for i, (e, what) in enumerate(zip(elts, ('per-thread-connection-store', 'owned-ids-store'))):
+            kind = fi.callee(e) if isinstance(e, ast.Call) else ast.unparse(e)
+            ok = False
+            if kind.split('.')[-1] == 'ForkAwareLocal':
+                ok = True            # multiprocessing.util: registers `obj.__dict__.clear()` after fork
+            else:
+                ci = m.resolve_class(kind, fi.module) if isinstance(e, ast.Call) else None
+                if ci is not None:
+                    init = m.method(ci, '__init__')
+                    ok = init is not None and any(isinstance(x, ast.Call) and
+                                                  init.callee(x).endswith('register_after_fork')
+                                                  for x in walk_own(init.node))
+            ctx.ob('R20.12', 'BaseProxy.__init__:%s-clears-itself-after-fork' % what, ok, fi, e,
+                   '%s() registers an after-fork clear' % kind if ok else
+                   '`%s` survives a fork as it is: the child\'s main thread finds the parent\'s connection (same thread '
+                   'ident) and talks to the server over the parent\'s socket -- the two processes read each other\'s '
+                   'replies' % ast.unparse(e))
+
+
 def r20_10(ctx):
     ctx.rule('R20.10', 'every proxy that takes a reference takes its own: _incref tells the server and arms the matching '
                        '_decref finalizer on every path (the server counts references per proxy, not per process)',
@@ -276,6 +311,7 @@ def r20_7(ctx):
 
 
 def run(ctx):
+    r20_12(ctx)
     r20_10(ctx)
     r20_7(ctx)
     # a generated proxy type is cached under everything it was generated from (type name and exposed methods)
